@@ -204,7 +204,7 @@ func conformingChoices(g *rng, o fopts, es []fentry, aggressive bool) []fchoice 
 func hasRdevField(o fopts, mode int32) bool {
 	dev := typeIs(mode, sIFCHR) || typeIs(mode, sIFBLK)
 	spec := typeIs(mode, sIFIFO) || typeIs(mode, sIFSOCK)
-	return o.devices && (dev || spec) // protocol 27: -D covers both
+	return (o.devices && dev) || (o.specials && spec)
 }
 
 func sortedEntries(es []fentry) []fentry {
@@ -334,7 +334,7 @@ func runFlist(r *run) error {
 	}
 	for i := 0; i < n; i++ {
 		o := fopts{uid: g.bool(), gid: g.bool(), links: g.bool(), devices: g.bool(), checksum: g.chance(30)}
-		o.specials = o.devices // the protocol-27 agreement (-D); the disagreeing shapes belong to C14
+		o.specials = g.bool()
 		ne := g.intn(9)
 		if g.chance(5) {
 			ne = 30 + g.intn(200)
